@@ -191,32 +191,35 @@ def runLimits (j : Json) : P Json := do
   let lim : Limits := ⟨← getNat (← field lj "f"), ← getNat (← field lj "i"), none⟩
   let calls ← (← getArr (← field j "calls")).mapM fun c => do
     match c with
-    | .str "authorize" => pure (none : Option (Bool × QRule))
+    | .str "authorize" => pure (some (none : Option (Bool × QRule)))
+    | .str "restore" => pure none
     | _ =>
       let q ← field c "query"
-      pure (some ((← (← field q "all").getBool?), ← parseQRule (← field q "q")))
+      pure (some (some ((← (← field q "all").getBool?), ← parseQRule (← field q "q"))))
   let (tbl, blocksI, azI) := internCase pool blocks az
-  let (tbl, callsI) := calls.foldl (fun (acc : ITable × List AzCall) c =>
+  let (tbl, callsI) := calls.foldl (fun (acc : ITable × List AzOp) c =>
     match c with
-    | none => (acc.1, acc.2 ++ [AzCall.authorize])
-    | some (all, q) =>
+    | none => (acc.1, acc.2 ++ [AzOp.restore])
+    | some none => (acc.1, acc.2 ++ [AzOp.call AzCall.authorize])
+    | some (some (all, q)) =>
       let (t', q') := internQRule pool acc.1 q
-      (t', acc.2 ++ [AzCall.query all q'])) (tbl, [])
+      (t', acc.2 ++ [AzOp.call (AzCall.query all q')])) (tbl, [])
   let syms := tbl.syms
   if blocksI.any (fun b => b.rules.any fun q => !headVarsBound q.rule) then
     return Json.mkObj [("calls", Json.arr #[Json.mkObj [("r", "invalid-rule")]])]
   let get := syms.getSymbol
   -- step through the calls, reporting the counters after each
-  let rec go (s : AzState) (cs : List AzCall) (acc : List Json) (amb : Bool) : List Json × Bool :=
+  let rec go (s : AzState) (cs : List AzOp) (acc : List Json) (amb : Bool) : List Json × Bool :=
     match cs with
     | [] => (acc, amb)
     | c :: rest =>
-      let (s', o) := s.call syms blocksI azI lim c
+      let (s', o) := s.op syms blocksI azI lim c
       let amb' := amb || (s'.done && caseAmbiguous syms s'.facts blocksI azI)
       let base : List (String × Json) := match o with
-        | .decision r => authzOut r
-        | .answer fs => [("r", "answer"), ("facts", Json.arr (fs.map (fun of => factStr get of.2)).toArray)]
-        | .exprError _ => [("r", "exec")]
+        | none => [("r", "restored")]
+        | some (.decision r) => authzOut r
+        | some (.answer fs) => [("r", "answer"), ("facts", Json.arr (fs.map (fun of => factStr get of.2)).toArray)]
+        | some (.exprError _) => [("r", "exec")]
       go s' rest (acc ++ [Json.mkObj (base ++ [("iterations", (s'.iterations : Json)), ("fact_count", (s'.facts.length : Json))])]) amb'
   let (outs, amb) := go (AzState.init blocksI azI) callsI [] false
   pure (Json.mkObj ([("calls", Json.arr outs.toArray)] ++ (if amb then [("amb", Json.bool true)] else [])))
